@@ -92,7 +92,7 @@ impl Schedule {
 
         while i + 1 < inner.len() {
             if inner[i].range.end >= inner[i + 1].range.start {
-                inner[i].range.end = inner[i + 1].range.end;
+                inner[i].range.end = max(inner[i].range.end, inner[i + 1].range.end);
                 let comments_left = std::mem::take(&mut inner[i].comments);
                 let comments_right = inner.remove(i + 1).comments;
                 inner[i].comments = comments_left.union(comments_right);
